@@ -219,6 +219,16 @@ def check_rows(rep: Report, rule: str, rows: List[Row], parts: Optional[List[str
         if exp == "unspecified":
             rep.note(rule, WHERE, case, "documented definition directly after a member/test declaration: the properties "
                                         "contradict each other here (F15); not judged")
+            # ... except for one clause no reading disputes: the declaration stops waiting here.  A declaration that keeps
+            # waiting claims a later, unrelated definition that it does not immediately precede, and that one loses its entry.
+            if (parts is None or "awaiting" in parts) and r.val.get("awaiting"):
+                n += 1
+                rep.check(r.awaiting == "clear", rule, WHERE, case + " (pending declaration released)",
+                          "a documented function()/macro() directly after a member/test declaration leaves the declaration "
+                          "pending: the next undocumented definition anywhere later in the file is taken for the implementation, "
+                          "gets no entry and hands its parameters to the earlier declaration",
+                          witness="ct_add_test(NAME t)\n#[[[\n# doc\n#]]\nfunction(${t})\nendfunction()\nfunction(helper a)\nendfunction()",
+                          key=f"{rule}|pending-not-released|{r.kind}")
             continue
         if exp == "error-expected":
             n += 1
